@@ -326,9 +326,7 @@ class MultiByteValue(Value):
         if "," not in value:
             raise ValueTypeError("multi-byte declarations must have a comma in them")
         values = value.split(",")
-        self.hex_array = [NumericValue(x).hex(size=2) for x in values if x != ""]
-        if any(len(hex_value) > 2 for hex_value in self.hex_array):
-            raise ValueTypeError("multi-byte values must fit in 8 bits")
+        self.hex_array = [NumericValue(x).fit(2).hex() for x in values if x != ""]
 
     def hex(self, size=0):
         return "".join(self.hex_array)
@@ -351,7 +349,7 @@ class MultiWordValue(Value):
         if "," not in value:
             raise ValueTypeError("multi-word declarations must have a comma in them")
         values = value.split(",")
-        self.hex_array = [NumericValue(x).hex(size=4) for x in values if x != ""]
+        self.hex_array = [NumericValue(x).fit(4).hex() for x in values if x != ""]
 
     def hex(self, size=0):
         return "".join(self.hex_array)
